@@ -463,7 +463,9 @@ pub fn c04(em: &mut Emit, thorough: bool, seed: u64) {
 pub fn c05(em: &mut Emit, thorough: bool, seed: u64) {
     let mut rng = Rng::new(seed ^ 0xC05);
     let opaque: &[u8] = b"v1";
-    let etags: [Option<Tag>; 3] = [None, Some(strong(opaque)), Some(weak(opaque))];
+    // (the last two: entities whose own tag is one of the If-Range values with a word spliced in)
+    let etags: [Option<Tag>; 5] =
+        [None, Some(strong(opaque)), Some(weak(opaque)), Some(strong(b"v1-gzip")), Some(strong(b"W/v1"))];
     let ranges: [&[u8]; 5] = [
         b"bytes=1-2",
         b"bytes=5-",
@@ -495,6 +497,18 @@ pub fn c05(em: &mut Emit, thorough: bool, seed: u64) {
         ("list-leading-comma".into(), Some(b",\"v1\"".to_vec())),
         ("list-star".into(), Some(b"*, \"v1\"".to_vec())),
     ];
+    // the matching validator with a protocol word spliced in before the closing quote or after
+    // the opening one (what a compressing proxy, a cache or a sloppy client might send)
+    for w in PROTOCOL_WORDS {
+        let mut v = b"\"v1".to_vec();
+        v.extend_from_slice(w);
+        v.push(b'"');
+        if_ranges.push(("spliced".into(), Some(v)));
+        let mut v = b"\"".to_vec();
+        v.extend_from_slice(w);
+        v.extend_from_slice(b"v1\"");
+        if_ranges.push(("spliced".into(), Some(v)));
+    }
     // near-misses of the matching validator
     for i in 0..(if thorough { 400 } else { 40 }) {
         let v = mutate_bytes(&mut rng, &strong(opaque).render());
@@ -614,6 +628,38 @@ pub fn c13(em: &mut Emit, thorough: bool, seed: u64) {
                     || format!("panicked={} status={} headers={:?}", o.panicked, o.status, o.headers),
                 );
                 em.case(&serve_line(&q, &e, o.now), &o.show(), &p, "pre-epoch-mtime");
+            }
+        }
+    }
+    // modification times far in the future (a corrupt or odd file system can carry them): beyond
+    // what an HTTP-date can express (year 10000 and later) and near the end of `SystemTime`'s range
+    for secs in [253_402_300_799u64, 253_402_300_800, 253_402_300_801, 1 << 40, 1 << 55, (i64::MAX as u64) - 1] {
+        let Some(mt) = UNIX_EPOCH.checked_add(Duration::new(secs, 5)) else { continue };
+        for method in ["GET", "HEAD"] {
+            for cond in 0..5 {
+                let mut e = HEntity::new(10);
+                e.mtime = Some(mt);
+                e.etag = if cond == 4 { Some(strong(b"x").render()) } else { None };
+                let mut q = HReq::get();
+                q.method = method.to_string();
+                match cond {
+                    1 => q.ims = DateH::Secs(T0),
+                    2 => q.ius = DateH::Secs(T0),
+                    3 => {
+                        q.if_range = Some(b"Fri, 31 Dec 9999 23:59:59 GMT".to_vec());
+                        q.range = Some(b"bytes=0-1".to_vec());
+                    }
+                    4 => {
+                        q.ims = DateH::Bad(b"not a date".to_vec());
+                        q.if_none_match = Some(b"\"y\"".to_vec());
+                    }
+                    _ => {}
+                }
+                let o = observe_serve(&q, &e);
+                let p = pred(!o.panicked && [200, 206, 304, 400, 412].contains(&o.status), || {
+                    format!("panicked={} status={}", o.panicked, o.status)
+                });
+                em.case(&serve_line(&q, &e, o.now), &o.show(), &p, "far-future-mtime");
             }
         }
     }
@@ -788,15 +834,19 @@ pub fn c13(em: &mut Emit, thorough: bool, seed: u64) {
 // ---------------------------------------------------------------------------------------
 // C14
 
-pub fn c14(em: &mut Emit, _thorough: bool, _seed: u64) {
+pub fn c14(em: &mut Emit, thorough: bool, seed: u64) {
     let now = std::time::SystemTime::now()
         .duration_since(UNIX_EPOCH)
         .unwrap()
         .as_secs();
-    let etags: [Option<&[u8]>; 3] = [None, Some(b"\"s1\""), Some(b"W/\"w1\"")];
+    let mut etags: Vec<Option<&[u8]>> = vec![None, Some(b"\"s1\""), Some(b"W/\"w1\"")];
+    if thorough {
+        // tags with list punctuation inside, empty opaque part, obs-text
+        etags.extend([Some(&b"\"a, b\""[..]), Some(&b"\"\""[..]), Some(&b"W/\"\xe9, \xe9\""[..])]);
+    }
     // `this-second` is resolved per case to 1 ns into the current wall-clock second: in the past,
     // but in the same second as the request
-    let mtimes: [(&str, Option<(u64, u32)>); 8] = [
+    let mut mtimes: Vec<(&str, Option<(u64, u32)>)> = vec![
         ("this-second", Some((u64::MAX, 1))),
         ("absent", None),
         ("epoch", Some((0, 0))),
@@ -806,6 +856,15 @@ pub fn c14(em: &mut Emit, _thorough: bool, _seed: u64) {
         ("1ns-before", Some((T0, 999_999_999))),
         ("future", Some((now + 86_400, 250_000_000))),
     ];
+    if thorough {
+        let mut rng = Rng::new(seed ^ 0xC14);
+        for _ in 0..8 {
+            // anywhere between 1970 and now, any sub-second part; a minute ago; a second in the future
+            mtimes.push(("random", Some((rng.below(now), rng.below(1_000_000_000) as u32))));
+        }
+        mtimes.push(("a-minute-ago", Some((now - 60, 999_999_999))));
+        mtimes.push(("soon", Some((now + 2, 1))));
+    }
     let header_sets: [Vec<(String, Vec<u8>)>; 3] = [
         vec![],
         vec![("x-ent-a".into(), b"1".to_vec())],
